@@ -12,6 +12,7 @@ import SqlLineage.IO.Shape
 import SqlLineage.IO.Export
 import SqlLineage.IO.Rename
 import SqlLineage.IO.Names
+import SqlLineage.IO.Segments
 import SqlLineage.IO.Split
 import SqlLineage.IO.Provider
 import SqlLineage.IO.Chain
@@ -19,6 +20,9 @@ import SqlLineage.IO.Chain
 open Lean
 
 def handlers : List (String × (Json → Except String Json)) := [
+  ("seglist", SqlLineage.IO.Segments.handleSegList),
+  ("identbatch", SqlLineage.IO.Segments.handleIdentBatch),
+  ("splitkeep", SqlLineage.IO.Segments.handleSplitKeep),
   ("cfg", SqlLineage.IO.Config.handleCfg),
   ("cfgmicro", SqlLineage.IO.Config.handleMicro),
   ("cfgexpand", SqlLineage.IO.Config.handleExpand),
